@@ -1,6 +1,7 @@
 SPECIFICATION Spec
 CONSTANTS
-  Fams = {"exact", "prelu", "table"}
+  Fams = {"exact", "prelu", "table", "long"}
+  LongSizes = {40003}
   MaxRank = 3
   MaxExt = 3
 INVARIANT Laws
